@@ -17,7 +17,8 @@ for s in $SEEDS; do
   git -C $R apply $V/seeded/$s/patch.diff || { echo -e "$s\tPATCH-FAILED" >> $OUT; continue; }
   own=$(python3 -c "import json;print(json.load(open('$V/seeded/$s/meta.json'))['property'])")
   hits=""
-  for p in C01 C02 C03 C04 C05 C06 C07 C08 C09 C10 C11 C12 C13 C14 C15 C16 C17 C18 C19; do
+  # CHECKS: which checks to run against every change (default: all 19); "own" stands for the change's property
+  for p in $(echo ${CHECKS:-C01 C02 C03 C04 C05 C06 C07 C08 C09 C10 C11 C12 C13 C14 C15 C16 C17 C18 C19} | sed "s/own/$own/" | tr ' ' '\n' | awk '!seen[$0]++'); do
     o=$(./check $p --tier quick 2>&1)
     if echo "$o" | grep -q "^VIOLATION"; then
       if echo "$o" | grep -q "no-failing-input-found"; then hits="$hits $p(nfi)"; else hits="$hits $p"; fi
